@@ -114,6 +114,13 @@ func (g *gen) iniValue(code string, choices []string) string {
 		return []string{"", "true", "false", "1", ""}[g.r.Intn(5)]
 	}
 	v := g.valueText(code, choices)
+	if g.plainIni {
+		// no quoting games: the text must be syntactically valid whatever the value
+		if strings.HasPrefix(v, "\"") {
+			v = "q" + v
+		}
+		return strings.TrimSpace(v)
+	}
 	switch g.r.Intn(10) {
 	case 0:
 		return strconv.Quote(v)
